@@ -372,6 +372,17 @@ pub struct BSys {
 }
 
 impl BSys {
+    /// The largest application payload of the data rate in force (MACPayload limit M minus FHDR and FPort), where the
+    /// regional parameters give one value for it.
+    fn max_app_payload(&self) -> Option<usize> {
+        let s = if let Some(nb) = &self.nb { nb.snap() } else { self.ac.as_ref()?.snap() };
+        if !matches!(s.state, VerifMacState::Joined(_)) {
+            return None;
+        }
+        let m = crate::refregion::max_payload(&self.region, s.data_rate);
+        if m.len() == 1 && m[0] >= 9 { Some(m[0] as usize - 8) } else { None }
+    }
+
     pub fn new(front: &str, cfg: &DevCfg) -> Self {
         if front == "nb" {
             BSys { nb: Some(NbCore::new(cfg)), ac: None, front: front.into(), region: cfg.region.clone(), outcome: String::new() }
@@ -436,6 +447,8 @@ pub fn dangerous(region: &str) -> Vec<(String, Vec<u8>)> {
 #[derive(Clone, Debug, Serialize, Deserialize, PartialEq, Eq, Hash)]
 pub enum BEv {
     Up { confirmed: bool },
+    /// an uplink with the largest application payload the data rate in force carries (N = M - 8)
+    UpMax,
     Cmd { label: String, bytes: Vec<u8>, port0: bool },
     Junk(u8),
     /// Class C: a junk frame heard while idle in rxc_listen
@@ -501,6 +514,9 @@ impl System for BSys {
         for d in defined_drs(&self.region) {
             v.push(BEv::SetDr(d));
         }
+        if self.max_app_payload().is_some() {
+            v.push(BEv::UpMax);
+        }
         v.push(BEv::SetAdr(false));
         v.push(BEv::Join { accept: Some(2) });
         v
@@ -550,6 +566,7 @@ impl System for BSys {
         }
         let e: Ev = match ev {
             BEv::Up { confirmed } => Ev::Cycle { confirmed: *confirmed, port: 1, len: 1, rx1: None, rx2: None },
+            BEv::UpMax => Ev::Cycle { confirmed: false, port: 1, len: self.max_app_payload().unwrap_or(1), rx1: None, rx2: None },
             BEv::Cmd { bytes, port0, .. } => cycle_with(if *port0 { down(vec![], bytes.clone()) } else { down(bytes.clone(), vec![]) }),
             BEv::Junk(k) => Ev::Cycle { confirmed: false, port: 1, len: 1, rx1: Some(junk(*k)), rx2: Some(junk((*k + 1) % 4)) },
             BEv::ListenJunk(_) => unreachable!(),
@@ -579,6 +596,7 @@ impl System for BSys {
         let label = match ev {
             BEv::Cmd { label, .. } => label.clone(),
             BEv::Up { .. } => "uplink".into(),
+            BEv::UpMax => "uplink-max-payload".into(),
             BEv::Junk(_) => "junk-frames".into(),
             BEv::ListenJunk(_) => "junk-while-listening".into(),
             BEv::SetDr(_) => "set_datarate".into(),
